@@ -205,6 +205,17 @@ func c09(c *core.Ctx) {
 							}
 							c.Check(okb, core.FuncName(caller)+":timeout-ctx-is-request-ctx", cc.Pos(),
 								"the context whose deadline is encoded is the one bound to the HTTP request (or its parent)", "the deadline is taken from a context that is not the one bound to the outgoing request")
+							// the deadline that is encoded is the CALLER's: between the entry point's context and the one
+							// the timeout is computed from the library adds no timer of its own (a channel-wide default
+							// timeout applied to every stream cuts a caller's longer deadline short)
+							tr := ctxTrace(p, arg)
+							timer := ""
+							for _, l := range tr.layerList() {
+								if strings.HasPrefix(l, "context.WithTimeout") || strings.HasPrefix(l, "context.WithDeadline") {
+									timer = l
+								}
+							}
+							c.Check(timer == "", core.FuncName(caller)+":no-library-timer-on-the-callers-deadline", cc.Pos(), "no WithTimeout/WithDeadline of the library's own lies between the caller's context and the encoded deadline", "the context whose deadline is sent passes through "+timer+" added by the library: the handler's deadline can be earlier than the caller's (spurious expiry)")
 						}
 					}
 					if n == 0 {
